@@ -85,7 +85,7 @@ def translate(ctx: Ctx) -> None:
             t = types[name]
             local = name.split('}')[1]
             rows.append((ver, local, t.white_space))
-            if getattr(t.to_python, '__name__', '') == 'integer_to_python':
+            if t.python_type is int:
                 fn = None
                 if len(t.validators) == 1 and getattr(t.validators[0], '__name__', None) in FN_LEAN:
                     fn = t.validators[0]
@@ -795,9 +795,9 @@ def one_case(ctx: Ctx, oracle: L.Oracle, batch: Optional[Batch], v11: bool, labe
     impl = impl_eval(t, text, oracle)
     if 'exc' in impl:
         if impl['exc'].startswith('foreign:'):
-            ctx.failure('an exception that is not a library error escapes decode()', case, impl['exc'])
+            ctx.failure('an exception that is not a library error escapes decode()', _pub(case), impl['exc'])
         else:
-            ctx.failure('lax decode raised instead of collecting the error', case, impl['exc'])
+            ctx.failure('lax decode raised instead of collecting the error', _pub(case), impl['exc'])
         ctx.case(case, True, tag='exception')
         return
     valid = not impl['errs']
@@ -808,7 +808,7 @@ def one_case(ctx: Ctx, oracle: L.Oracle, batch: Optional[Batch], v11: bool, labe
         iv = 'exc:' + type(e).__name__
     oracle.take()
     if iv is not valid:
-        ctx.failure('is_valid() disagrees with the errors of a lax decode()', case, {'is_valid': iv, 'errors': impl['errs']})
+        ctx.failure('is_valid() disagrees with the errors of a lax decode()', _pub(case), {'is_valid': iv, 'errors': impl['errs']})
     # ---- the property itself, by the independent reading ----
     spec = spec_type(d, v11, text)
     judged = spec != 'unjudged'
@@ -827,14 +827,14 @@ def one_case(ctx: Ctx, oracle: L.Oracle, batch: Optional[Batch], v11: bool, labe
                 ctx.known_hit(fid)
                 case['_known'] = fid
             else:
-                ctx.failure('accepted/refused against the lexical space and facets of the type', case, detail)
+                ctx.failure('accepted/refused against the lexical space and facets of the type', _pub(case), detail)
         elif valid:
             bad = value_denotes(impl['value'], sval, text)
             if bad:
                 if L.has_py_ws(text):
                     case['_pyws_pending'] = {'kind': 'value', 'what': bad}
                 else:
-                    ctx.failure('decoded value does not denote the XSD value of the text', case, bad)
+                    ctx.failure('decoded value does not denote the XSD value of the text', _pub(case), bad)
     # ---- round trip on the real code ----
     if valid and impl['value'] is not None and not _contains_union(d) and root_name(d) not in ('error',) \
             and not _has_pattern(d) and not _ROLLOVER.search(text):
@@ -848,7 +848,7 @@ def one_case(ctx: Ctx, oracle: L.Oracle, batch: Optional[Batch], v11: bool, labe
                 if fid:
                     ctx.known_hit(fid)
                 else:
-                    ctx.failure('encode(decode(text)) decodes to a different value', case, detail)
+                    ctx.failure('encode(decode(text)) decodes to a different value', _pub(case), detail)
         except Exception as e:    # noqa
             oracle.take()
             detail = {'kind': 'roundtrip', 'value': repr(impl['value']), 'error': repr(e)[:200]}
@@ -856,7 +856,7 @@ def one_case(ctx: Ctx, oracle: L.Oracle, batch: Optional[Batch], v11: bool, labe
             if fid:
                 ctx.known_hit(fid)
             else:
-                ctx.failure('encode(decode(text)) fails', case, detail)
+                ctx.failure('encode(decode(text)) fails', _pub(case), detail)
     nontrivial = valid or impl['value'] is not None or near_miss
     ctx.case({k: v for k, v in case.items() if not k.startswith('_')}, nontrivial,
              tag=f"{case['v']}/{'builtin' if d[0] == 'b' else {'r': 'restriction', 'l': 'list', 'u': 'union'}[d[0]]}")
@@ -1110,11 +1110,11 @@ def element_level(ctx: Ctx, schema: Any, good: list, v11: bool, oracle: L.Oracle
                 ev = schema.is_valid(xml)
                 tv = t.is_valid(text)
             except Exception as e:    # noqa
-                ctx.failure('an exception escapes is_valid()', case, repr(e)[:200])
+                ctx.failure('an exception escapes is_valid()', _pub(case), repr(e)[:200])
                 continue
             ctx.case(case, True, tag=f"{case['v']}/element")
             if ev != tv:
-                ctx.failure('verdict through an element differs from the verdict of its type', case, {'element': ev, 'type': tv})
+                ctx.failure('verdict through an element differs from the verdict of its type', _pub(case), {'element': ev, 'type': tv})
                 continue
             if not tv or not L.xsd_collapse(text):
                 continue
@@ -1123,7 +1123,7 @@ def element_level(ctx: Ctx, schema: Any, good: list, v11: bool, oracle: L.Oracle
                 try:
                     got = schema.decode(xml, **opts)
                 except Exception as e:    # noqa
-                    ctx.failure('decode() of a valid element fails', case, {'options': str(opts), 'error': repr(e)[:200]})
+                    ctx.failure('decode() of a valid element fails', _pub(case), {'options': str(opts), 'error': repr(e)[:200]})
                     continue
                 ctx.count('options:' + (','.join(opts) or 'default'))
                 bad = None
@@ -1152,7 +1152,7 @@ def element_level(ctx: Ctx, schema: Any, good: list, v11: bool, oracle: L.Oracle
                     if got != base and not (got is None and base == ''):
                         bad = 'string value differs'
                 if bad:
-                    ctx.failure('decode option semantics', case, {'options': str(opts), 'got': repr(got), 'detail': bad})
+                    ctx.failure('decode option semantics', _pub(case), {'options': str(opts), 'got': repr(got), 'detail': bad})
     oracle.take()
 
 
@@ -1177,11 +1177,16 @@ def witness_fails(w: dict) -> bool:
     import xmlschema
     try:
         cls = xmlschema.XMLSchema11 if w.get('v', '1.1') == '1.1' else xmlschema.XMLSchema10
-        s = cls(HEAD + w['schema'] + '</xs:schema>')
-        got = s.types['T'].is_valid(w['text'])
-        return got != w['expected_valid']
+        t = cls(HEAD + w['schema'] + '</xs:schema>').types['T']
+        if w.get('kind') == 'roundtrip':
+            v = t.decode(w['text'], datetime_types=True, binary_types=True)
+            try:
+                return not py_equal(t.decode(t.encode(v), datetime_types=True, binary_types=True), v)
+            except Exception:   # noqa
+                return True
+        return t.is_valid(w['text']) != w['expected_valid']
     except Exception:   # noqa
-        return True
+        return False
 
 
 def search(ctx: Ctx) -> None:
